@@ -1,3 +1,9 @@
 import Just.Props.C10
 open Just.C10
-#print axioms placeholder
+#print axioms roundtrip
+#print axioms roundtripArgs
+#print axioms parse_print
+#print axioms parse_print_fuel
+#print axioms format_idempotent
+#print axioms group_keeps_parentheses
+#print axioms parse_print_in_context
